@@ -137,6 +137,7 @@ def _setup(cfg, scalar_mode='Z'):
     symtorch.SCALAR_MODE = scalar_mode
     from . import autograd
     autograd.ENABLED = bool(cfg.get('autograd', False))
+    symtorch.set_fresh(symtorch.havoc_fresh if cfg.get('fresh') == 'havoc' else None)
 
 
 def exact_trace(arg):
